@@ -232,7 +232,7 @@ def main():
     if args.replay:
         jobs = families.replay_jobs(args.replay)
     else:
-        jobs = fam.jobs(rng, tier)           # list of Job(L, K, header_statics, scripts=[(id, lines, expect)], extra flags)
+        jobs = fam.corpus(prop) + fam.jobs(rng, tier)           # list of Job(L, K, header_statics, scripts=[(id, lines, expect)], extra flags)
 
     # compile
     texts = [(gen.unit_text(j.L, j.K) if j.unit_text is None else j.unit_text, shash, j.cxx_extra) for j in jobs]
